@@ -284,6 +284,13 @@ func execC23(c run.Case) (res run.Result) {
 				}
 			}
 			if !okX || e.p.Y < b.Y-1 || e.p.Y > b.Y2()+1 {
+				// known root cause: adjustGroupLabel makes room for a group's label by moving
+				// everything below the group's top down — a same-actor (4-point) message whose
+				// start is above that top and whose end is below is left in place while the
+				// span it ends on moves
+				if kind == "same-actor" && c23StraddlesGroupTop(d, ex.Prefix, cn) {
+					trig = "same-actor-message-straddles-group-top:" + trig
+				}
 				res.Viol("C23.endpoint", "C23.endpoint:"+trig+":"+kind+":"+where, fmt.Sprintf("message %d (%s -> %s): %s (%g,%g) is not on the facing border of span %q %v", k, m.Src, m.Dst, e.name, e.p.X, e.p.Y, e.id, b))
 				return
 			}
@@ -291,6 +298,27 @@ func execC23(c run.Case) (res run.Result) {
 	}
 	res.Nontrivial = len(order) >= 2 && len(msgs) >= 2
 	return
+}
+
+// c23StraddlesGroupTop: some group shape (generator ids g<n>) has its top strictly between the
+// first and the last point of the message.
+func c23StraddlesGroupTop(d *d2target.Diagram, prefix string, cn *d2target.Connection) bool {
+	y0, y1 := cn.Route[0].Y, cn.Route[len(cn.Route)-1].Y
+	if y0 > y1 {
+		y0, y1 = y1, y0
+	}
+	for i := range d.Shapes {
+		s := &d.Shapes[i]
+		id := strings.TrimPrefix(s.ID, prefix)
+		seg := id[strings.LastIndex(id, ".")+1:]
+		if len(seg) < 2 || seg[0] != 'g' || strings.Trim(seg[1:], "0123456789") != "" {
+			continue
+		}
+		if top := float64(s.Pos.Y); top > y0 && top < y1+float64(s.LabelHeight)+10 {
+			return true
+		}
+	}
+	return false
 }
 
 func c23Route(cn *d2target.Connection) string {
